@@ -106,11 +106,10 @@ func httpObjPayload(d *dg.Design) []mref {
 	return methods(d, func(_ *dg.Service, m *dg.Method) bool { return m.HTTP != nil && isObjAttr(d, m.Payload) })
 }
 
-// methods whose result is an object looked up by name and has no fixed view (a
-// dangling response header under a fixed view panics: recorded finding)
+// methods whose result is an object looked up by name (with or without a fixed view)
 func httpObjResult(d *dg.Design) []mref {
 	return methods(d, func(_ *dg.Service, m *dg.Method) bool {
-		return m.HTTP != nil && isObjAttr(d, m.Result) && m.ResultView == ""
+		return m.HTTP != nil && isObjAttr(d, m.Result)
 	})
 }
 
@@ -400,8 +399,32 @@ var mutators = map[string]mutator{
 		}
 		return &Mutation{Kind: "dangling_resp_body", Where: where(x), Name: ghost, Covered: true, Expect: "reject"}
 	},
+	// Tag("zzz", "v") on a response of a method whose result does not have zzz
+	"dangling_tag": func(d *dg.Design, r *vh.RNG) *Mutation {
+		x, ok := pickM(r, methods(d, func(_ *dg.Service, m *dg.Method) bool {
+			return m.HTTP != nil && m.Result != nil && m.StreamingResult == nil
+		}))
+		if !ok {
+			return nil
+		}
+		h := x.m.HTTP
+		if len(h.Responses) == 0 {
+			h.Responses = append(h.Responses, dg.Response{Status: 200})
+		}
+		for _, rs := range h.Responses {
+			if rs.Status == 203 {
+				return nil
+			}
+		}
+		h.Responses = append([]dg.Response{{Status: 203, Tag: []string{ghost, "v"}}}, h.Responses...)
+		return &Mutation{Kind: "dangling_tag", Where: where(x), Name: ghost, Covered: true, Expect: "reject"}
+	},
 	"undeclared_error": func(d *dg.Design, r *vh.RNG) *Mutation {
 		er := dg.ErrResponse{Name: "nope", R: dg.Response{Status: 418}}
+		if r.Bool() {
+			// with a header: the header checks are skipped for an unknown error
+			er.R.Headers = []dg.MapEntry{{Attr: "x", Wire: "X-X"}}
+		}
 		switch r.Intn(4) {
 		case 0:
 			d.HTTPErrs = append(d.HTTPErrs, er)
@@ -484,14 +507,6 @@ var mutators = map[string]mutator{
 			res := dg.A(dg.Ref("Outer"))
 			x.m.Result = &res
 			x.m.HTTP.Responses = nil
-		}
-		// a fixed view together with response headers / cookies would run into the recorded panic
-		if x.m.HTTP != nil {
-			for _, rs := range x.m.HTTP.Responses {
-				if len(rs.Headers)+len(rs.Cookies) > 0 {
-					return nil
-				}
-			}
 		}
 		x.m.ResultView = "nope"
 		return &Mutation{Kind: "undefined_view", Where: where(x), Name: "nope", Covered: true, Expect: "reject"}
@@ -882,9 +897,8 @@ var mutators = map[string]mutator{
 	},
 }
 
-// mutations that always run into a recorded finding (Find recursing through
-// Reference cycles, empty service names): drawn less often
-var rare = map[string]bool{"reference_cycle": true, "self_reference": true, "empty_names": true}
+// mutations that always run into a recorded finding (empty service names): drawn less often
+var rare = map[string]bool{"empty_names": true}
 
 func firstObjType(d *dg.Design) *dg.UserType {
 	for _, t := range d.Types {
